@@ -65,3 +65,19 @@ func (s *shards) CopyShard(i int) *shard {
 	sh := s.list[i]
 	return &sh
 }
+
+type closer struct{ n int }
+
+func (c *closer) Close() {}
+
+// CloseAll starts one goroutine per element that all see the last one (go 1.16): loop-closures must fire.
+func CloseAll(items []interface{}) {
+	for _, item := range items {
+		go func() {
+			c, _ := item.(*closer)
+			if c != nil {
+				c.Close()
+			}
+		}()
+	}
+}
